@@ -180,3 +180,12 @@ package tcell
 //@   calls [wired] pair(FuncOf, fn, Set, recv, name, val) ==>
 //@        name == "onPaste" && isMethodValue(fn, "onPaste") == on && (isMethodValue(fn, "onPaste") || isMethodValue(fn, "unset"))
 //@   modifies nothing
+
+// Suspend wipes the page grid (clearScreen) but leaves the logical buffer alone: the resumed screen has to repaint
+// every cell, or the page stays blank wherever the logical contents did not change in between.
+//@ func (*wScreen).Resume
+//@   arith math
+//@   requires cbwf(&t.cells)
+//@   ensures [repaints] result == nil ==> forall k int :: 0 <= k && k < len(t.cells.cells) && !t.cells.cells[k].lock ==> isDirty(t.cells.cells[k])
+//@   ensures [shape] shapeKept(&t.cells, old(t.cells.w), old(t.cells.h), old(t.cells.cells))
+//@   modifies t.running, t.cells.cells[*], t.Mutex
